@@ -67,6 +67,9 @@ func (g *gen) parseTypes(name string, typs []types.Type) (sig *types.Signature, 
 	if params.Len() < 1 {
 		return nil, nil, fmt.Errorf("%s, the first argument is a function, but wanted a function with at least one argument", name)
 	}
+	if sig.Variadic() {
+		return nil, nil, fmt.Errorf("%s, the first argument, %s, is a variadic function, which is not supported", name, g.TypeString(sig))
+	}
 	lastArg = params.At(params.Len() - 1).Type()
 	if !types.AssignableTo(typs[1], lastArg) {
 		return nil, nil, fmt.Errorf("%s, the second argument, %s, is not is assignable to the last argument of the function, type %s", name, g.TypeString(typs[1]), g.TypeString(lastArg))
